@@ -579,5 +579,50 @@ theorem C03G_stream_strict (featPar : Bool) (par : Gen.Encoder → Gen.Source.Me
     (by simpa [Total.subCfgOf] using hmax) (by omega) hlogok hs
   exact ⟨G, sb, rep, hg, by rw [himg]; exact h1, h2, h3⟩
 
+/-- **the Rust-side VALUE the generated driver returns on the generated `MemSource`** (success direction): the STREAMINFO block
+flagged last, no further metadata block, the frames `gs` whose model images are the model's frames — the form
+`C08G_stream_ops` (`Stream::write`) needs: `C08Gen.streamToGen (streamImage G) G.frames = G`. -/
+theorem C03G_driver_mem_value (featPar : Bool) (par : Gen.Encoder → Gen.Source.MemSource → Nat → M (Option Gen.Writer.Stream))
+    (md5f : List Nat → List Nat) (s1 : Nat → List (List Int)) (s2 : Nat → List Int) (s3 : Nat → Gen.Coding.FrameBuf)
+    (c : Gen.Encoder) (chans : List (List Int)) (ch bps rate bs total : Nat) (log logf : List OEvent) (i0 : StreamInfo)
+    (m0 : FlacVerif.FrameBuf) (fs : List Frame)
+    (hmt : c.multithread = false)
+    (hnew : FlacVerif.StreamInfo.new rate ch bps = some i0) (hfb : FlacVerif.FrameBuf.withSize ch bs = some m0)
+    (hst : ∀ n, C09Gen.StereoBuf (s3 n)) (hb : 1 ≤ bps ∧ bps ≤ 24)
+    (hmax : c.subframe_coding.prc.max_parameter ≤ 14) (hmo : c.subframe_coding.fixed.max_order + 1 < 2 ^ 64)
+    (hcl : chans.length = ch) (hlen : ∀ x ∈ chans, x.length = total)
+    (hxr : ∀ x ∈ chans, ∀ v ∈ x, SubFrame.inRange bps v = true) (htot : total < 2 ^ 40)
+    (henc : encodeFrames (Total.subCfgOf c.subframe_coding) (Total.stereoCfgOf c.stereo_coding) bps rate (blocksOf bs chans) 0 log =
+      some (fs, logf))
+    (hlog : C09Gen.LogFits log) (hlogok : ∀ e ∈ log, e.Ok) (hnb : (blocksOf bs chans).length < 2 ^ 31)
+    (hmd : ∀ l, (md5f l).length = 16) :
+    ∃ (gs : List Gen.Writer.Frame) (info : StreamInfo), gs.map C08Gen.frameOfGen = fs ∧
+      (∀ g ∈ gs, (C08Gen.frameOfGen g).count = some (Gen.Writer.Frame.count_bits g)) ∧
+      ∀ fuel, (blocksOf bs chans).length < fuel →
+        encode_with_fixed_block_size featPar memOps par md5f s1 s2 s3 fuel c
+          (Gen.Source.MemSource.from_samples (Rfc.interleave chans) ch bps rate) bs log =
+          some (some ⟨⟨true, .StreamInfo info⟩, [], gs⟩, logf) := by
+  obtain ⟨fbcf, hd⟩ := C03G_mem_delivers chans ch bps rate bs total m0 hcl hlen hxr hb htot hfb
+  have hch : 1 ≤ ch ∧ 1 ≤ bs := by
+    unfold FlacVerif.FrameBuf.withSize at hfb
+    split at hfb
+    · rename_i h; omega
+    · simp at hfb
+  have hne : 1 ≤ chans.length := by omega
+  have hxl : (Rfc.interleave chans).length = total * ch := by rw [interleave_length chans total hne hlen, hcl]
+  have hlh : memOps.len_hint ⟨ch, bps, rate, Rfc.interleave chans, total⟩ = some (some total) := by
+    have h0 : ch ≠ 0 := by omega
+    simp [memOps, Gen.Source.MemSource.len_hint, Gen.Source.MemSource.len, Gen.Source.MemSource.channels_fn, Gen.Source.req,
+      Gen.Source.bindO, h0, hxl, Nat.mul_div_cancel _ (by omega : 0 < ch)]
+  obtain ⟨gs, h1, _, h3, h4⟩ := C03G_driver_contract memOps featPar par md5f s1 s2 s3 c
+    (Gen.Source.MemSource.from_samples (Rfc.interleave chans) ch bps rate) _ bs log logf i0 m0 fbcf (some total)
+    (blocksOf bs chans) fs hmt hnew hfb hst hb hmax hmo hd henc hlog hlogok hnb hlh hmd
+  exact ⟨gs, _, h1, h3, h4⟩
+
+/-- a stream of that form is the Rust-side value `C08Gen.streamToGen` assigns to its own model image -/
+theorem streamToGen_image (info : StreamInfo) (gs : List Gen.Writer.Frame) :
+    C08Gen.streamToGen (streamImage ⟨⟨true, .StreamInfo info⟩, [], gs⟩) gs = ⟨⟨true, .StreamInfo info⟩, [], gs⟩ := by
+  simp [C08Gen.streamToGen, streamImage, Gen.Verify.Stream.stream_info]
+
 end C03GenMem
 end FlacVerif
